@@ -29,6 +29,13 @@ Theorem C11_generated_alloc_bounded : exists c1 c2, longstr_alloc = AllocChunked
 Proof. exact gen_alloc_shapes. Qed.
 Print Assumptions C11_generated_alloc_bounded.
 
+(* the recursion fuel of the model (input length + 1) is always enough: the outcomes are Ok / Err / Panic / Alloc only *)
+Theorem C11_model_fuel_sufficient : forall d bs,
+  decode_value d bs <> Fuel /\ decode_table d bs <> Fuel /\ decode_method_frame d bs <> Fuel /\ decode_header d bs <> Fuel /\
+  decode_frame bs <> Fuel /\ decode_message d bs <> Fuel /\ decode_binding d bs <> Fuel.
+Proof. exact gen_decoders_nofuel. Qed.
+Print Assumptions C11_model_fuel_sufficient.
+
 (* generic form: any tag tables, any method descriptions *)
 Theorem C11_method_decoder_total_generic : forall cap rd d methods dispatch bs,
   safe cap (dec_method_frame (AllocChunked cap) rd d methods dispatch bs).
